@@ -7,6 +7,7 @@ import PsProofs.PreSieve
 import PsProofs.Segments
 import PsProofs.SegmentCorrect
 import PsProofs.Feed
+import PsProofs.TinySieve
 import Mathlib.Tactic.NormNum.Prime
 import Mathlib.Tactic.IntervalCases
 import PsModel.Generated.Locks
@@ -311,5 +312,39 @@ theorem C01_feed_source :
       ("SievingPrimes.tinySieve", "113fa3fd72436a642e1b"),
       ("SievingPrimes.sieveSegment", "03e2ed93360f87098a63"),
       ("SievingPrimes.next", "44d200de44feb094f754")] := by decide
+
+/-- **C01 (tinySieve is correct)** SievingPrimes::tinySieve(), the plain odd-only sieve of Eratosthenes over a Vector<bool>
+    (`for (i = 3; i*i <= n; i += 2) if (t[i]) for (j = i*i; j <= n; j += 2*i) t[j] = false`): for EVERY n the table has
+    n + 1 entries and for every odd k with 3 ≤ k ≤ n, entry k is true iff k is prime. -/
+theorem C01_tiny_sieve (n : Nat) :
+    (Feed.tinySieve n).length = n + 1 ∧
+    ∀ k, 3 ≤ k → k ≤ n → k % 2 = 1 → ((Feed.tinySieve n).getD k false = true ↔ k.Prime) :=
+  Feed.tinySieve_spec n
+
+/-- **C01 (the inner feed adds exactly the primes)**: SievingPrimes::sieveSegment's loop over the table of tinySieve() —
+    from any odd tinyIdx_ ≥ 3 and for every segment bound `high` with isqrt(high) inside the table — hands
+    addSievingPrime exactly the primes of [tinyIdx_, isqrt(high)], each once, and leaves tinyIdx_ odd and beyond isqrt(high):
+    the innermost level of the sieving-prime recursion is correct outright (no hypothesis about a source). -/
+theorem C01_inner_feed_primes (n high tinyIdx : Nat) (hodd : tinyIdx % 2 = 1) (h3 : 3 ≤ tinyIdx) (hn : Nat.sqrt high ≤ n) :
+    let r := Feed.tinyFeed (fun j => (Feed.tinySieve n).getD j false) high tinyIdx
+    Nat.sqrt high < r.1 ∧ r.1 % 2 = 1 ∧
+    ∀ j, j ∈ r.2 ↔ (tinyIdx ≤ j ∧ j ≤ Nat.sqrt high ∧ j.Prime) := by
+  simp only
+  obtain ⟨h1, _, h3', h4⟩ := Feed.tinyFeed_spec (fun j => (Feed.tinySieve n).getD j false) high tinyIdx
+  refine ⟨h1, by omega, ?_⟩
+  intro j
+  rw [h4 j]
+  constructor
+  · rintro ⟨a, b, c, d⟩
+    exact ⟨a, b, ((Feed.tinySieve_spec n).2 j (by omega) (by omega) (by omega)).mp d⟩
+  · rintro ⟨a, b, c⟩
+    have hjodd := Feed.prime_ge3_odd j c (by omega)
+    exact ⟨a, b, by omega, ((Feed.tinySieve_spec n).2 j (by omega) (by omega) hjodd).mpr c⟩
+
+/-- non-vacuity / test: the table for n = 40 and one round of the inner feed over it -/
+example : ((List.range 41).filter (fun k => k % 2 = 1 ∧ 3 ≤ k ∧ (Feed.tinySieve 40).getD k false)) = [3, 5, 7, 11, 13, 17, 19, 23, 29, 31, 37] := by
+  decide +kernel
+example : Feed.tinyFeed (fun j => (Feed.tinySieve 40).getD j false) 1000 5 = (33, [5, 7, 11, 13, 17, 19, 23, 29, 31]) := by
+  decide +kernel
 
 end Ps.Props
